@@ -31,6 +31,8 @@ def plan_runs(prop, scenario, flags, ts, cfg):
         return [dict(base, name="first-call", keep=True), dict(base, t=ts[1], name="second-call-same-shaper", reuse=0), dict(base, t=ts[1], name="fresh-shaper")]
     if scenario == "repeat":         # the same call twice on one Shaper
         return [dict(base, name="first-call", keep=True), dict(base, name="second-call-same-shaper", reuse=0)]
+    if scenario == "permuted":       # the same graph with its statements in another order
+        return [dict(base, name="document-order"), dict(base, graph="P", name="permuted-order")]
     if scenario == "inverse3":
         f_inv = dict(flags, inverse_paths=True)
         f_dir = dict(flags, inverse_paths=False)
@@ -110,12 +112,12 @@ def run_obligation(res, prop, st_name, N, findings, scenario="single", cfg=None)
         for r in runs:
             key = (r["graph"], r["flags"]["inverse_paths"])
             if key not in syms:
-                syms[key] = T.build_symbolic(ex, st, N, r["flags"]["inverse_paths"], reverse=(r["graph"] == "R"))
+                syms[key] = T.build_symbolic(ex, st, N, r["flags"]["inverse_paths"], reverse=(r["graph"] == "R"), permuted=(r["graph"] == "P"))
             r["sym"] = syms[key]
             try:
                 extra = dict(r["extra"])
                 if shapemap:
-                    extra["shape_map_raw"] = R.shapemap_text(st["rows"], None, representative=True)
+                    extra["shape_map_raw"] = R.shapemap_text(T.permuted_rows(st["rows"]) if r["graph"] == "P" else st["rows"], None, representative=True)
                 kept = [] if r.get("keep") else None
                 reuse = runs[r["reuse"]]["shaper"] if r.get("reuse") is not None else None
                 r["text"], r["shacl"] = T.run_real_stage(r["sym"]["profile"], r["sym"]["counts"], r["flags"], r["t"], r["report_mode"], r["decimals"],
@@ -197,10 +199,10 @@ def run_obligation(res, prop, st_name, N, findings, scenario="single", cfg=None)
         reals = []
         for r in runs:
             thr = thr_of.get(id(r["t"]), r["t"])
-            doc = R.to_ntriples(T.reverse_triples(triples) if r["graph"] == "R" else triples)
+            doc = R.to_ntriples(_graph_variant(st, vals, triples, r["graph"], shapemap))
             extra = dict(r["extra"])
             if shapemap:
-                extra["shape_map_raw"] = R.shapemap_text(st["rows"], vals)
+                extra["shape_map_raw"] = R.shapemap_text(T.permuted_rows(st["rows"]) if r["graph"] == "P" else st["rows"], vals)
             try:
                 kept = [] if r.get("keep") else None
                 reuse = reals[r["reuse"]].get("shaper") if r.get("reuse") is not None else None
@@ -242,6 +244,14 @@ def run_obligation(res, prop, st_name, N, findings, scenario="single", cfg=None)
     res["extra"]["structure"] = [r.to_json() for r in st["rows"]]
 
 
+def _graph_variant(st, vals, triples, graph, shapemap):
+    if graph == "R":
+        return T.reverse_triples(triples)
+    if graph == "P":
+        return R.generate_triples(T.permuted_rows(st["rows"]), vals, shapemap=shapemap)
+    return triples
+
+
 def _same_graph(a, b):
     import rdflib
     from rdflib.compare import isomorphic
@@ -273,10 +283,10 @@ def replay(args):
     runs = plan_runs(args["prop"], args["scenario"], args["flags"], thrs, cfg)
     reals = []
     for r in runs:
-        doc = R.to_ntriples(T.reverse_triples(triples) if r["graph"] == "R" else triples)
+        doc = R.to_ntriples(_graph_variant(st, args["values"], triples, r["graph"], shapemap))
         extra = dict(r["extra"])
         if shapemap:
-            extra["shape_map_raw"] = R.shapemap_text(st["rows"], args["values"])
+            extra["shape_map_raw"] = R.shapemap_text(T.permuted_rows(st["rows"]) if r["graph"] == "P" else st["rows"], args["values"])
         try:
             kept = [] if r.get("keep") else None
             reuse = reals[r["reuse"]].get("shaper") if r.get("reuse") is not None else None
